@@ -329,4 +329,177 @@ theorem parseScanner2_payload_invariant (entry : String) (d : Gen.D) (text text'
 
 end general
 
+/-! ## a concrete payload set; ONE replaced leaf (the relation `C06.subL` of the lexer half) -/
+
+open Classical in
+/-- the payload set given by a list of texts `ws`; config strings: every text that CONTAINS one of them -/
+@[reducible] noncomputable def payOfList (ws : List String) (w0 : String) (h0 : w0 ∈ ws) (hi : ∀ s ∈ ws, inertB s = true) : PaySet where
+  P := fun s => ws.contains s
+  c := w0
+  hc := by simpa using h0
+  inert := fun s hs => hi s (by simpa using hs)
+  P2 := fun s => decide (∃ w ∈ ws, w.toList <:+: s.toList)
+  c2 := w0
+  hc2 := by simp only [decide_eq_true_eq]; exact ⟨w0, h0, List.infix_refl _⟩
+  sub := fun s hs => by simp only [decide_eq_true_eq]; exact ⟨s, by simpa using hs, List.infix_refl _⟩
+  catL := fun a b h => by
+    simp only [decide_eq_true_eq] at h ⊢
+    obtain ⟨w, hw, hx⟩ := h
+    exact ⟨w, hw, by rw [String.toList_append]; exact hx.trans (List.prefix_append _ _).isInfix⟩
+  catR := fun a b h => by
+    simp only [decide_eq_true_eq] at h ⊢
+    obtain ⟨w, hw, hx⟩ := h
+    exact ⟨w, hw, by rw [String.toList_append]; exact hx.trans (List.suffix_append _ _).isInfix⟩
+
+/-- a text that begins with a quote character or `(` is none of the function names -/
+theorem inert_of_opq {s : String} (h : Opq s) : inertB s = true := by
+  have h1 := opq_contains (opq_up h) ["CAST", "EXTRACT", "IF", "SUBSTRING"] (by decide)
+  have h2 := opq_contains (opq_up h) Gen.aggNames (by decide)
+  simp only [inertB, h1, h2]; rfl
+
+/-- the texts the parser can store from the two leaves -/
+def leafTexts (s s' : List Char) : List String :=
+  [String.ofList s, String.ofList s', unifyName (String.ofList s), unifyName (String.ofList s')]
+mutual
+/-- the renderings `(…)` of the bracket groups on which two token trees differ (the parser stores the rendering of a whole group in a few
+degenerate positions: the name of a WITH table, of a lateral view, `a.(…)`, an index-only bracket in element position) -/
+def diffSrc : Tok → Tok → List String
+  | .group k cs m, .group k' cs' m' =>
+    if eqbL cs cs' then [] else Tok.src (.group k cs m) :: Tok.src (.group k' cs' m') :: diffSrcL cs cs'
+  | _, _ => []
+def diffSrcL : List Tok → List Tok → List String
+  | t :: ts, t' :: ts' => diffSrc t t' ++ diffSrcL ts ts'
+  | _, _ => []
+end
+mutual
+/-- no bracket group carries the NAME mark (the lexer emits groups with the PARENTHESIS / ARRAY_INDEX mark only) -/
+def noNameGroup : Tok → Bool
+  | .single _ _ => true
+  | .group _ cs m => (m &&& NAME == 0) && noNameGroupL cs
+def noNameGroupL : List Tok → Bool
+  | [] => true
+  | t :: ts => noNameGroup t && noNameGroupL ts
+end
+
+section oneLeaf
+variable (s s' : List Char) (m : Nat) (hna : s.any p128 = s'.any p128)
+include hna
+mutual
+theorem subT_any : ∀ t t' : Tok, subT (.single s m) (.single s' m) t t' → (Tok.source t).any p128 = (Tok.source t').any p128
+  | .single a k, t', h => by
+    simp only [subT] at h
+    rcases h with rfl | ⟨hx, rfl⟩
+    · rfl
+    · cases hx; simpa [Tok.source] using hna
+  | .group g cs k, t', h => by
+    simp only [subT] at h
+    obtain ⟨ds, rfl, hl⟩ := h
+    simp only [Tok.source, List.any_cons, List.any_append, subL_any cs ds hl]
+theorem subL_any : ∀ ts ts' : List Tok, subL (.single s m) (.single s' m) ts ts' → (sourceL ts).any p128 = (sourceL ts').any p128
+  | [], ts', h => by simp only [subL] at h; rw [h]
+  | a :: as, ts', h => by
+    simp only [subL] at h
+    obtain ⟨b, bs, rfl, h1, h2⟩ := h
+    simp only [sourceL, List.any_append, subT_any a b h1, subL_any as bs h2]
+end
+end oneLeaf
+
+mutual
+theorem diffSrc_opq : ∀ (t t' : Tok), ∀ w ∈ diffSrc t t', Opq w
+  | .group k cs m, .group k' cs' m', w, hw => by
+    simp only [diffSrc] at hw
+    split at hw
+    · simp at hw
+    · simp only [List.mem_cons] at hw
+      rcases hw with rfl | rfl | hw
+      · exact opq_ofList (by simp [Tok.source, opaqueHead])
+      · exact opq_ofList (by simp [Tok.source, opaqueHead])
+      · exact diffSrcL_opq cs cs' w hw
+  | .single _ _, _, w, hw => by simp [diffSrc] at hw
+  | .group _ _ _, .single _ _, w, hw => by simp [diffSrc] at hw
+theorem diffSrcL_opq : ∀ (ts ts' : List Tok), ∀ w ∈ diffSrcL ts ts', Opq w
+  | t :: ts, t' :: ts', w, hw => by
+    simp only [diffSrcL, List.mem_append] at hw
+    rcases hw with hw | hw
+    · exact diffSrc_opq t t' w hw
+    · exact diffSrcL_opq ts ts' w hw
+  | [], _, w, hw => by simp [diffSrcL] at hw
+  | _ :: _, [], w, hw => by simp [diffSrcL] at hw
+end
+
+section build
+variable [S : PaySet] (s s' : List Char) (m : Nat)
+  (hQ : SrcQ s s') (hdot : m &&& NAME = 0 ∨ (dotOK s = true ∧ dotOK s' = true))
+include hQ hdot
+mutual
+/-- one replaced leaf, in any nesting of brackets: `QE` — provided the payload set contains the renderings of the enclosing groups -/
+theorem qe_of_subT : ∀ t t' : Tok, subT (.single s m) (.single s' m) t t' → noNameGroup t = true →
+    (∀ w ∈ diffSrc t t', PaySet.P w = true) → QE t t'
+  | .single a k, t', h, _, _ => by
+    simp only [subT] at h
+    rcases h with rfl | ⟨hx, rfl⟩
+    · exact QE.refl _
+    · cases hx; simp only [QE, true_and]; exact .inr ⟨hQ, hdot⟩
+  | .group g cs k, t', h, hn, hw => by
+    simp only [subT] at h
+    obtain ⟨ds, rfl, hl⟩ := h
+    simp only [noNameGroup, Bool.and_eq_true, beq_iff_eq] at hn
+    simp only [QE, true_and]
+    by_cases e : eqbL cs ds = true
+    · have := eqbL_sound cs ds e; subst this
+      exact ⟨QEL.refl _, .inl rfl⟩
+    · have hw2 : ∀ w ∈ diffSrcL cs ds, PaySet.P w = true := fun w hm => hw w (by simp [diffSrc, e, hm])
+      refine ⟨qel_of_subL cs ds hl hn.2 hw2, .inr ⟨hn.1, ?_⟩⟩
+      have ha := subL_any s s' m hQ.2.2.1 cs ds hl
+      have p1 := hw (Tok.src (.group g cs k)) (by simp [diffSrc, e])
+      have p2 := hw (Tok.src (.group g ds k)) (by simp [diffSrc, e])
+      simp only [Tok.src, Tok.source] at p1 p2
+      refine ⟨by simp [opaqueHead], by simp [opaqueHead], ?_, p1, p2, ?_, ?_⟩
+      · simp only [List.any_cons, List.any_append, ha]
+      · rw [unifyName_paren]; exact p1
+      · rw [unifyName_paren]; exact p2
+theorem qel_of_subL : ∀ ts ts' : List Tok, subL (.single s m) (.single s' m) ts ts' → noNameGroupL ts = true →
+    (∀ w ∈ diffSrcL ts ts', PaySet.P w = true) → QEL ts ts'
+  | [], ts', h, _, _ => by simp only [subL] at h; rw [h]; simp
+  | a :: as, ts', h, hn, hw => by
+    simp only [subL] at h
+    obtain ⟨b, bs, rfl, h1, h2⟩ := h
+    simp only [noNameGroupL, Bool.and_eq_true] at hn
+    simp only [qel_cons_cons]
+    exact ⟨qe_of_subT a b h1 hn.1 (fun w hm => hw w (by simp [diffSrcL, hm])),
+      qel_of_subL as bs h2 hn.2 (fun w hm => hw w (by simp [diffSrcL, hm]))⟩
+end
+end build
+
+/-- **C06.payload_one_leaf**: `ts'` is `ts` with the leaf `(s, m)` replaced by `(s', m)` at some of its occurrences (`C06.subL`, what the
+lexer half delivers for two texts that differ inside one quoted region).  If both sources begin with a quote character, are both / neither
+ASCII, — in case of the NAME mark — contain not exactly one dot, and the names `unifyName s`, `unifyName s'` are none of the function names the
+parser dispatches on, then `parse_statements` gives the same error kind, or statement lists that are equal after the erasure of the texts
+`W` = the two sources, the two sources without back-quotes, and the renderings of the bracket groups that contain the leaf. -/
+theorem payload_one_leaf (d : Gen.D) (f : Nat) (s s' : List Char) (m : Nat) (ts ts' : List Tok)
+    (hsub : subL (.single s m) (.single s' m) ts ts')
+    (ho : opaqueHead s = true) (ho' : opaqueHead s' = true) (hna : s.any p128 = s'.any p128)
+    (hdot : m &&& NAME = 0 ∨ (dotOK s = true ∧ dotOK s' = true))
+    (hi : inertB (unifyName (String.ofList s)) = true) (hi' : inertB (unifyName (String.ofList s')) = true)
+    (hng : noNameGroupL ts = true) :
+    ∃ S : PaySet, (∀ w, S.P w = true ↔ w ∈ leafTexts s s' ++ diffSrcL ts ts') ∧ QEL ts ts' ∧
+      QEX (qeq (List.map erSt0)) (pStatements d f ts) (pStatements d f ts') := by
+  have hW : ∀ w ∈ leafTexts s s' ++ diffSrcL ts ts', inertB w = true := by
+    intro w hw
+    simp only [List.mem_append, leafTexts, List.mem_cons, List.not_mem_nil, or_false] at hw
+    rcases hw with (rfl | rfl | rfl | rfl) | hw
+    · exact inert_of_opq (opq_ofList ho)
+    · exact inert_of_opq (opq_ofList ho')
+    · exact hi
+    · exact hi'
+    · exact inert_of_opq (diffSrcL_opq ts ts' w hw)
+  let S : PaySet := payOfList (leafTexts s s' ++ diffSrcL ts ts') (String.ofList s) (by simp [leafTexts]) hW
+  have hP : ∀ w, S.P w = true ↔ w ∈ leafTexts s s' ++ diffSrcL ts ts' := fun w => by
+    show (leafTexts s s' ++ diffSrcL ts ts').contains w = true ↔ _
+    simp
+  have hQ : @SrcQ S s s' := by
+    refine ⟨ho, ho', hna, ?_, ?_, ?_, ?_⟩ <;> rw [hP] <;> simp [leafTexts]
+  have hqel : @QEL S ts ts' := @qel_of_subL S s s' m hQ hdot ts ts' hsub hng (fun w hw => (hP w).2 (by simp [hw]))
+  exact ⟨S, hP, hqel, @payload_shape_invariant S d f ts ts' hqel⟩
+
 end C06
